@@ -9,8 +9,13 @@ def seq_observation(c):
     outcome, _, syms = symobs.execute(c, time_limit=300)
     content = symobs.dec_content(c['content'])
     kw = c['kw']
-    p = symobs.part_desc(content, kw.get('mode'), kw.get('encoding'))
-    msg, _enc = props_decide.policy_bytes(p)
+    if isinstance(content, list):       # a message in parts: the bytes of the parts, one after the other
+        msg = []
+        for part in content:
+            msg += props_decide.policy_bytes(symobs.part_desc(part, kw.get('mode'), kw.get('encoding')))[0]
+    else:
+        p = symobs.part_desc(content, kw.get('mode'), kw.get('encoding'))
+        msg, _enc = props_decide.policy_bytes(p)
     v = kw.get('version')
     o = {'_call': c, 'outcome': outcome, 'message': msg,
          'args': {'version': 99 if v is None else int(v), 'symbol_count': -1 if kw.get('symbol_count') is None else int(kw['symbol_count']),
@@ -135,6 +140,12 @@ def gen_calls(tier, seed):
         for k in (2, 4):
             calls.append(call('make_sequence', txt, symbol_count=k))
         calls.append(call('make_sequence', txt, version=1))
+    # a message given in parts that fits one symbol of the requested version (the single-symbol shortcut encodes it like make() does):
+    # as a list and as a tuple / generator / list iterator / map object - every part arrives, in order
+    for parts, v in ((['HELLO ', 'WORLD ', '2024'], 2), (['id=', 4711, ';ok'], 1), (['12', '34'], 1), (['abc', b'\x00\x01', 'DEF'], 3)):
+        calls.append(call('make_sequence', parts, version=v))
+        for kind in symobs.CONTAINERS:
+            calls.append(symobs.in_container(call('make_sequence', parts, version=v), kind))
     return calls
 
 
